@@ -1,5 +1,5 @@
 CONSTANTS
-  MaxLen = 5
+  MaxLen = 4
   Tokens = {"x", "1", "}", "for", "in", "'s'", "f'{a}'", "(", ")", "[", ":", ",", "=", "+", "*", "**", ".", "if", "else", "def", "lambda", "match", "NL", "IND", "@", "->", "not", ":="}
   Emit = TRUE
 SPECIFICATION Spec
